@@ -6849,6 +6849,9 @@ class SemanticAnalyzer(
                     # Lookup through invalid node, such as variable or function
                     nextsym = None
                 if not nextsym or nextsym.module_hidden:
+                    # The outcome depends on the namespace in which the lookup failed (the name
+                    # may be added there later), so record it as a dependency as well.
+                    self.record_imported_symbol(sym)
                     if not suppress_errors:
                         self.name_not_defined(name, ctx, namespace=namespace)
                     return None
